@@ -37,6 +37,9 @@ CONSTANTS Setting,      \* set of setting names
           ExitSkipsNone,\* [kind -> BOOLEAN]     does __exit__ go through the None-skipping setter?
           WarnsOnEnter, \* set of settings whose __enter__ may raise (a warning escalated to an error)
           WarnBeforeSet,\* BOOLEAN code shape: the warning is issued BEFORE the global is written (current code: TRUE)
+          LibReusesObject, \* BOOLEAN: library code enters a context OBJECT it built once (at import) instead of constructing one per use
+                        \*          (current code: FALSE); such an object restores what was visible when it was constructed
+          WithLibOp,    \* BOOLEAN: include the LibOp action (off in most history-generation runs: it multiplies the histories)
           MaxDepth,     \* nesting bound
           MaxLen,       \* program length bound (only used when history is recorded)
           RecordHist    \* BOOLEAN: carry the history variable (generation configs)
@@ -164,6 +167,17 @@ Pop(k, how) ==
   /\ pend'  = <<>>
   /\ Rec([a |-> how, s |-> stack[Len(stack)].s, args |-> [x \in {} |-> None], k |-> k, obs |-> VisibleP(ideal')])
 
+\* library code that needs a setting for the duration of one internal computation (`with settings.X(v): ...` inside a method):
+\* construct, enter and exit happen within one call of the user's program - whatever blocks the user has open
+LibOp(s, args) ==
+  /\ WithLibOp /\ pend = <<>> /\ Room
+  /\ LET saved   == IF LibReusesObject THEN DefaultRaw(s) ELSE glob[s]
+         inst    == InstOf(Kind[s], args, saved)
+         entered == [glob EXCEPT ![s] = SetEnter(Kind[s], @, inst)]
+     IN glob' = [entered EXCEPT ![s] = SetExit(Kind[s], @, saved)]
+  /\ UNCHANGED <<stack, pend, ideal>>
+  /\ Rec([a |-> "LibOp", s |-> s, args |-> args, k |-> 0, obs |-> VisibleP(ideal)])
+
 ExitNormal  == Pop(1, "Exit")
 \* an exception raised inside the innermost block and caught outside the k-th enclosing block
 ExitByException == \E k \in 1..Len(stack) : Pop(k, "Raise")
@@ -174,6 +188,7 @@ Next ==
   \/ EnterFails
   \/ ExitNormal
   \/ ExitByException
+  \/ \E s \in Setting : \E args \in ArgsOf(Kind[s]) : Kind[s] \in {"flag", "value"} /\ LibOp(s, args)
 
 Spec == Init /\ [][Next]_vars
 
@@ -196,6 +211,9 @@ EnterIsLocal ==
   [][ Len(stack') > Len(stack) =>
         \A s \in Setting : \A f \in FieldsOf(Kind[s]) :
            Obs(glob')[s][f] = IF s = pend[1].s /\ pend[1].req[f] # None THEN pend[1].req[f] ELSE Obs(glob)[s][f] ]_vars
+
+\* a library call leaves every visible setting as it found it, inside any block of the user
+LibOpIsInvisible == [][ (stack' = stack /\ pend' = pend) => Obs(glob') = Obs(glob) ]_vars
 
 \* constructing a context object has no visible effect
 ConstructIsPure == [][ (pend = <<>> /\ pend' # <<>>) => glob' = glob ]_vars
